@@ -120,6 +120,13 @@ def pretty_fpred(value, ctx):
     return _doc(value, ctx, None)
 
 
+@register_pretty(predicate=lambda v: type(v) is FPredNode)
+def pretty_fpred_second(value, ctx):
+    # a second, later registered predicate accepting the same values: never used (the first accepting predicate wins,
+    # also when its printer fails)
+    return 'SECOND-PREDICATE-PRINTER'
+
+
 class FLazyBase(FNode):
     """printer registered by NAME for this base class; instances are of the subclass FLazySub, so the printer is
     promoted through the superclass walk on first use"""
